@@ -234,3 +234,16 @@ MANIFEST_TEXT['C15'] = (
  "Machine-checked for every program: over the whole history of a run the inner system of a one-off wrapper is started at most once per reactor, whether or not the reactor still exists (closed invariant OH over a ghost start history written next to the EvRun line; Local is 0 until the inner system is taken and at most 1 afterwards); a spent wrapper is a no-op and is never held by the runner as runnable; the first run marks the wrapper, runs the inner system, despawns its own entity (dead afterwards), revokes its own token (which removes every registration it names) and drops the inner system. Tied to /repo by differential runs of the once profile (multi-trigger bundles, several triggers in one tree, self-triggering, revocation before and after) comparing runs, live entities and table sizes.",
  "Trusted: Coq kernel; model faithfulness (differential); Bevy semantics as modelled. Partial: at-least-once on the first trigger and never-runs-when-revoked/empty are correspondence only (they rest on C01/C06/C07).",
  "Coq proof (closed invariants over ghost histories + step lemmas of the wrapper) + model/implementation correspondence", "DESIGN.md §5 C15")
+
+PROPS['C16'] = P(
+    ['world_reactor_add_registers_its_single_system_partial', 'world_reactor_remove_revokes_partial',
+     'persistent_registration_spawns_and_collects_nothing_partial', 'removing_triggers_despawns_nothing_partial',
+     'entity_reactor_add_partial', 'local_data_attached_partial', 'run_sees_the_data_of_its_entity_partial', 'entity_reactor_remove_partial',
+     'every_named_entity_is_cleaned_once_partial', 'data_removed_with_the_last_trigger_kept_otherwise_partial', 'cleanup_leaves_other_data_partial'],
+    ['xw', 'mixed'], 'xw', determined=False,
+    assumes=['PARTIAL: step-level theorems for all states; the frame over whole runs (no other step changes a datum besides the body\'s own increment and the despawn of the entity; the shared system is never despawned or duplicated by any sequence) rests on the correspondence: the set of (reactor, entity) data is compared after every top-level op and the datum shown to every run is compared',
+             'what registration / revocation do to the tables is C01 / C06'])
+MANIFEST_TEXT['C16'] = (
+ "Partial proof. Machine-checked for all states: adding triggers to a world reactor is a registration of its single statically installed system under a persistent handle (which changes no state besides queuing table insertions: nothing is spawned, no auto-despawn signal exists for it), removing triggers is a revocation, which despawns nothing and touches no callback; for an entity world reactor, add attaches the datum and registers the entity's triggers, a run caused by an entity is shown exactly the datum stored for that entity, remove revokes and cleans every named entity exactly once, and the cleanup removes the datum exactly when the entity holds no handle of the reactor's system any more and leaves every other datum alone. The whole-run frame is not a theorem; it is checked by differential runs of the xw profile (add / remove / trigger / despawn over several entities and both reactors, removal bundles naming several entities with partial removal) comparing the (reactor, entity) data set after every op and the datum seen by every run.",
+ "Trusted: Coq kernel; model faithfulness (differential); Bevy semantics as modelled. Partial: whole-run frame and never-duplicated/never-despawned are correspondence only.",
+ "Coq proof of the step-level behaviour (partial) + model/implementation correspondence on local data and runs", "DESIGN.md §5 C16")
